@@ -174,18 +174,24 @@ static inline size_t
 tpt_msg_active_thr_count_dec(tpt_msg_data_p msg_data, tpt_p src,
     size_t dec) {
 	size_t tm;
+	tpt_p dst;
+	tpt_msg_done_cb done_cb;
 
 	/* Additional data handling. */
 	MTX_LOCK(&msg_data->lock);
 	msg_data->active_thr_count -= dec;
 	tm = msg_data->active_thr_count;
+	/* Read before unlock: once the count is 0 the sync caller may
+	 * return and its on-stack msg_data is gone. */
+	dst = msg_data->tpt;
+	done_cb = msg_data->done_cb;
 	MTX_UNLOCK(&msg_data->lock);
 
 	if (0 != tm ||
-	    NULL == msg_data->done_cb)
+	    NULL == done_cb)
 		return (tm); /* There is other alive threads. */
 	/* This was last thread, so we need do call back done handler. */
-	tpt_msg_send(msg_data->tpt, src,
+	tpt_msg_send(dst, src,
 	    (TP_MSG_F_FAIL_DIRECT | TP_MSG_F_SELF_DIRECT),
 	    tpt_msg_cb_done_proxy_cb, msg_data);
 	return (tm);
